@@ -170,6 +170,9 @@ func c03Case(c *core.Ctx, id string) {
 		}
 		st, res, alive := e.Build(target, pj.BuildOpt{Child: true, Always: false})
 		switch {
+		case !alive && watchdogOnly(res):
+			c.Inconclusive(fmt.Sprintf("%s: the recovery build after %s was ended by the wall-clock watchdog (no fatal error, no deadlock in its dump)", id, what))
+			return false
 		case !alive:
 			viol("recovery-build-crashes", map[string]any{"after": what, "error": res.RunErr})
 			return false
@@ -265,6 +268,10 @@ func c03Case(c *core.Ctx, id string) {
 		os.Remove(countFile)
 		e.ChildBuild = childBuilder(c, cpus)
 		_, res, alive := e.Build(target, pj.BuildOpt{Child: true, Always: always, Failing: va.failing, WarmOverlay: warm, Env: []string{"VERIF_COUNT=" + countFile}})
+		if !alive && watchdogOnly(res) {
+			c.Inconclusive(fmt.Sprintf("%s: the counting run was ended by the wall-clock watchdog (no fatal error, no deadlock in its dump)", id))
+			return
+		}
 		if !alive || res.LoadErr != "" || (res.RunErr != "" && va.failing == nil) {
 			viol("counting-run-fails", map[string]any{"error": res.LoadErr + res.RunErr})
 			return
